@@ -341,7 +341,9 @@ def first_divergence(impl_case, model_case, views, with_ret=True, with_ev=False,
             return i
         if op_filter and not op_filter(a["op"]):
             continue
-        if project(a, views, with_ret, with_ev) != project(b, views, with_ret, with_ev):
+        # the verdict of `==` is the business of C16 only (op_filter selects it there)
+        wr = with_ret and (op_filter is not None or not a["op"].startswith("eq "))
+        if project(a, views, wr, with_ev) != project(b, views, wr, with_ev):
             return i
     return None
 
